@@ -34,6 +34,8 @@ var Templates = map[string]cat.Fn{
 	"L19": {Kind: "ctor", Ps: []cat.Param{{K: "T4@g", M: "grp", O: 1}, {K: "T4", M: "req", O: 1}}, Rs: []cat.Result{{Ks: []string{"T6"}, M: "one"}}},
 	"L20": {Kind: "ctor", Rs: []cat.Result{{Ks: []string{"T4"}, M: "one"}}},
 	"L21": {Kind: "ctor", Ps: []cat.Param{{K: "T1", M: "req"}}, Rs: []cat.Result{{Ks: []string{"T4"}, M: "one"}}},
+	"L22": {Kind: "ctor", Rs: []cat.Result{{Ks: []string{"T0/q"}, M: "one", O: 1}}},
+	"L23": {Kind: "ctor", Ps: []cat.Param{{K: "T0/q", M: "req", O: 1}}, Rs: []cat.Result{{Ks: []string{"T2"}, M: "one"}}},
 	"D01": {Kind: "dec", Ps: []cat.Param{{K: "T0", M: "req"}}, Rs: []cat.Result{{Ks: []string{"T0"}, M: "one"}}},
 	"D02": {Kind: "dec", Ps: []cat.Param{{K: "T4@g", M: "grp", O: 1}}, Rs: []cat.Result{{Ks: []string{"T4@g"}, M: "grp", N: 1, O: 1}}},
 	"I01": {Kind: "inv", Ps: []cat.Param{{K: "T3", M: "req"}}},
